@@ -43,6 +43,6 @@ TF(op, PA, PB, ia, ib, out, steps) ==
         ELSE TF(op, PA, PB, ia, ib + 1, IF op \in {"or", "xor"} THEN Append(out, <<PB[ib], "B">>) ELSE out, steps + 1)
     ELSE IF hasA /\ op \in {"or", "xor", "sub"} THEN TF(op, PA, PB, ia + 1, ib, Append(out, <<PA[ia], "A">>), steps)
     ELSE IF hasB /\ op \in {"or", "xor"} THEN TF(op, PA, PB, ia, ib + 1, Append(out, <<PB[ib], "B">>), steps)
-    ELSE [out |-> out, steps |-> steps]
+    ELSE [out |-> out, steps |-> steps, ia |-> ia, ib |-> ib]          \* ia / ib: the fingers when the merge stops
 TwoFinger(op, PA, PB) == TF(op, PA, PB, 1, 1, <<>>, 0)
 =============================================================================
